@@ -31,6 +31,9 @@ func RunHistory(t *rapid.T, prof *Profile, mons ...Monitor) {
 			g.Notes = append(g.Notes, fmt.Sprintf("hasher=%+v", g.Hasher))
 		}
 	}
+	if g.Data != nil {
+		g.Data = genDataGenesis(DefaultAccounts(), g.Hasher.Build()) // ids as this configuration's hasher assigns them
+	}
 	w := NewWorld(t, g, prof, func(f string, a ...interface{}) { t.Fatalf(f, a...) }, mons...)
 	for _, n := range g.Notes {
 		if strings.HasPrefix(n, "populated{") {
@@ -45,6 +48,8 @@ func RunHistory(t *rapid.T, prof *Profile, mons ...Monitor) {
 			w.Flags["initial-height>1"] = true
 		} else if strings.HasPrefix(n, "legacy-batches{") {
 			w.Flags["legacy-genesis-batches"] = true
+		} else if strings.HasPrefix(n, "basket-lists-class-of-other-credit-type{") {
+			w.Flags["genesis-basket-lists-class-of-other-credit-type"] = true
 		} else if strings.HasPrefix(n, "data-genesis{") {
 			w.Flags["data-genesis"] = true
 		} else if strings.HasPrefix(n, "legacy-exponent-basket{") {
